@@ -1163,14 +1163,9 @@ func (c *Conn) writeRequest(ctx *Ctx) error {
 	c.queueReq(id, ctx)
 
 	if hasBody {
-		if verifOn {
-			vAccess(c, "streamWindow", "wl:nolock")
-		}
-
 		pb := &pendingBody{
-			ctx:    ctx,
-			window: c.streamWindow,
-			size:   -1,
+			ctx:  ctx,
+			size: -1,
 		}
 
 		if bodyStream {
@@ -1187,7 +1182,18 @@ func (c *Conn) writeRequest(ctx *Ctx) error {
 			vCliGate(c, "wr.beforepending", id)
 		}
 
+		// The window is read in the same critical section that makes the body
+		// visible to applyInitialWindow. Read earlier, and without the lock, a
+		// SETTINGS_INITIAL_WINDOW_SIZE change arriving in between was applied
+		// to neither the snapshot nor the body: the stream then ran with a
+		// window the server had never granted, or stalled short of it.
 		c.sendLck.Lock()
+
+		if verifOn {
+			vAccess(c, "streamWindow", "wl:sendLck")
+		}
+
+		pb.window = c.streamWindow
 		c.pending[id] = pb
 		c.sendLck.Unlock()
 	}
